@@ -445,7 +445,7 @@ func (w *C02) Run(t *rt.Tape, trace bool) *core.Result {
 	res := &core.Result{Reach: map[string]int{}}
 	core.BeginRun(t)
 	pipe, small := DrawPipe(t)
-	opts := gen.CircuitOpts{ZeroWidth: true}
+	opts := gen.CircuitOpts{ZeroWidth: true, SignedArgs: true}
 	if w.Tier == "thorough" {
 		opts.MaxGates = 1500 // deeper bounds in the thorough tier
 		opts.MaxIn = 48
